@@ -168,7 +168,7 @@ def run(ctx: vlib.Ctx, sources: list[str], cases: list[dict]):
 # kernel K105c: the prologue of the discriminated dispatcher
 # ---------------------------------------------------------------------------
 DISCR_HEADER = """From Coq Require Import List String Ascii Bool.
-From Verif Require Import Wire FieldEmitText DiscrEmit K105cProofs.
+From Verif Require Import Wire FieldEmitText ErrsDiscrEmit K105cProofs.
 From VerifGen Require Import K105c.
 Import ListNotations.
 Open Scope string_scope.
